@@ -175,3 +175,8 @@ def residual_name(b, t):
     a = t2.T2(None, b)
     src = a.residual_source(t)
     return (src or "?").split("::")[-1]
+
+
+def run_thorough(F, chk):
+    import witness
+    witness.apply(chk, "R-C11-d-w", "BufferCursorIsPrivate", "compile_fail witness: Buffer cursor fields are private across crates")
